@@ -15,8 +15,27 @@ package core
 // what newTCPConn / eventloop.open establish for a live connection and closeConn relies on (assumed at its call sites)
 //@ define connok(el, c) = c != nil && closedfx(c) && (c.opened ==> (c.loop != nil && c.loop.ln != nil && c.outboundBuffer != nil && elastic.mwf(c.outboundBuffer) && el.eventHandler != nil && el.poller != nil && el.connections != nil && c.inMsgQueue != nil && c.inFragQueue != nil && c.outFragQueue != nil))
 
+// The wire path (C01, C10, C19): callers of conn.write use the ghost-log clauses below (what was handed to the
+// connection). Its body is checked in addition (flags implcheck: no-panic, the at-call asserts and the impl. clauses;
+// the ghost clauses stay assumed) against the verified outbound buffer:
+//  - nothing goes to the socket directly while older bytes are pending (they would be overtaken);
+//  - what the kernel did not accept is buffered: all of data after EAGAIN, exactly data[sent:] after a short write;
+//  - the bytes pending afterwards are those pending before plus len(data) minus what the kernel accepted.
+//@ define obuf(c) = c.outboundBuffer
+//@ define obok(c, d) = c.outboundBuffer != nil && elastic.mwf(c.outboundBuffer) && (c.outboundBuffer.ringBuffer.rb == nil || d.base != c.outboundBuffer.ringBuffer.rb.buf.base)
 //@ func conn.write
-//@   flags trusted
+//@   flags trusted implcheck
+//@   props C01 C10 C19
+//@   assume at call Buffer.IsEmpty#0 :: obok(c, data) && connok(c.loop, c) && c.loop.poller != nil
+//@   label U at call Write#0
+//@   label W1 at call Buffer.Write#1
+//@   label CL at call eventloop.closeConn#0
+//@   assert[impl.whole0@C01,C10,C19] at call Buffer.Write#0 :: arg1 == data
+//@   assert[impl.direct@C01,C10,C19] at call Write#0 :: elastic.mempty(obuf(c)) && arg1 == data
+//@   assert[impl.whole1@C01,C10,C19] at call Buffer.Write#1 :: arg1 == data && elastic.mempty(obuf(c))
+//@   assert[impl.leftover@C01,C10,C19] at call Buffer.Write#2 :: 0 <= sent && sent < len(data) && arg1 == data[sent:] && elastic.mempty(obuf(c))
+//@   ensures[impl.conserve@C01,C10,C19] (!reached(CL) && reached(U) && !reached(W1)) ==> (0 <= sent && sent <= len(data) && elastic.mtotal(obuf(c)) == old(elastic.mtotal(obuf(c))) + len(data) - sent)
+//@   ensures[impl.conserve.buffered@C01,C10,C19] (!reached(U) || reached(W1)) ==> elastic.mtotal(obuf(c)) == old(elastic.mtotal(obuf(c))) + len(data)
 //@   modifies c.opened, c.buffer, c.localAddr, c.remoteAddr, c.pollAttachment, c.initStep, c.initStatus, c.isSlave, c.connType
 //@   modifies c.inMsgQueue, c.inFragQueue, c.outFragQueue, c.wcount, c.wlog, elastic.RingBuffer.rb, ring.Buffer.r, ring.Buffer.w, ring.Buffer.isEmpty
 //@   requires c.loop != nil
@@ -25,8 +44,29 @@ package core
 //@   ensures c.opened ==> (old(c.opened) && c.inMsgQueue == old(c.inMsgQueue) && c.inFragQueue == old(c.inFragQueue) && c.outFragQueue == old(c.outFragQueue) && err == nil)
 //@   ensures closedfx(c)
 
+// conn.writev: as conn.write; after a short vectored write the leftover is the slices from the first one the kernel
+// did not take completely, that one cut by the bytes it did take (sent minus the total of the slices before it).
+//@ use bytes
 //@ func conn.writev
-//@   flags trusted
+//@   flags trusted implcheck
+//@   props C01 C10 C19
+//@   assume at call Buffer.IsEmpty#0 :: c.outboundBuffer != nil && elastic.mwf(c.outboundBuffer) && elastic.srcok(c.outboundBuffer, bs) && c.outboundBuffer.maxStaticBytes > 0 && connok(c.loop, c) && c.loop.poller != nil
+//@   assume at call Buffer.IsEmpty#0 :: forall k int :: 0 <= k && k < len(bs) ==> len(bs[k]) >= 0
+//@   label V at call Writev#0
+//@   assert[impl.whole0@C01,C10,C19] at call Buffer.Writev#0 :: arg1 == bs && (forall k int :: 0 <= k && k < len(bs) ==> bs[k] == old(bs[k]))
+//@   assert[impl.direct@C01,C10,C19] at call Writev#0 :: elastic.mempty(obuf(c)) && arg1 == bs && n == vsum(bs, len(bs)) && (forall k int :: 0 <= k && k < len(bs) ==> bs[k] == old(bs[k]))
+//@   assert[impl.whole1@C01,C10,C19] at call Buffer.Writev#1 :: arg1 == bs && elastic.mempty(obuf(c)) && (forall k int :: 0 <= k && k < len(bs) ==> bs[k] == old(bs[k]))
+//@   assert[impl.leftover@C01,C10,C19] at call Buffer.Writev#2 :: elastic.mempty(obuf(c)) && 0 <= pos && pos < len(bs) && arg1 == bs[pos:]
+//@   assert[impl.leftover.cut@C01,C10,C19] at call Buffer.Writev#2 :: forall x int :: x == pos ==> (0 <= sent && sent < len(old(bs[x])) && bs[x] == old(bs[x])[sent:])
+//@   assert[impl.leftover.rest@C01,C10,C19] at call Buffer.Writev#2 :: forall k int :: (0 <= k && k < len(bs) && k != pos) ==> bs[k] == old(bs[k])
+//@   assert at call Buffer.Writev#2 :: forall j int :: (0 <= j && j < len(bs) - pos) ==> bs[pos:][j] == bs[pos + j]
+//@   loop 0
+//@     invariant 0 <= rangeindex + 1 && rangeindex + 1 <= len(bs) && vsum_unfold(bs, rangeindex + 2) && n == vsum(bs, rangeindex + 1)
+//@   loop 1
+//@     modifies nothing
+//@     invariant 0 <= rangeindex + 1 && rangeindex + 1 <= len(bs) && pos == 0 && 0 <= sent && vsum_unfold(bs, rangeindex + 2)
+//@     invariant pre(sent) == sent + vsum(bs, rangeindex + 1) && n == vsum(bs, len(bs)) && pre(sent) < n
+//@     invariant forall k int :: 0 <= k && k < len(bs) ==> bs[k] == old(bs[k])
 //@   modifies c.opened, c.buffer, c.localAddr, c.remoteAddr, c.pollAttachment, c.initStep, c.initStatus, c.isSlave, c.connType
 //@   modifies c.inMsgQueue, c.inFragQueue, c.outFragQueue, c.wcount, c.wlog, elastic.RingBuffer.rb, ring.Buffer.r, ring.Buffer.w, ring.Buffer.isEmpty, elems(bs)
 //@   requires c.loop != nil
@@ -112,14 +152,28 @@ package core
 //@     invariant[flush.count@C01] c.wcount == gw(c) + gn(c)
 //@     invariant[flush.order@C01] forall i int :: 0 <= i && i < gn(c) ==> c.wlog[gw(c) + i] == atlabel(G, mqm(cl(c), i).RspBody)
 
+// eventloop.write (C01, C10, C19): on a writable socket the front of the outbound buffer (what Peek hands out, at most
+// iovMax slices of it) goes to the kernel, and exactly the number of bytes the kernel accepted is dropped from the front.
+//@ func eventloop.write
+//@   props C01 C10 C19
+//@   requires c != nil && c.opened && connok(el, c) && !elastic.mempty(obuf(c))
+//@   label CW at call eventloop.closeConn#0
+//@   assert[drain.batch@C01,C10,C19] at call Writev#0 :: len(arg1) >= 1 && len(arg1) <= 1024
+//@   assert[drain.exact@C01,C10,C19] at call Buffer.Discard#0 :: arg1 == n
+//@   assume at call eventloop.closeConn#0 :: connok(el, c)
+//@   ensures[drain.count@C01,C10,C19] !reached(CW) ==> elastic.mtotal(obuf(c)) == old(elastic.mtotal(obuf(c))) - imin(imax(n, 0), old(elastic.mtotal(obuf(c))))
+//@   ensures[drain.wf] !reached(CW) ==> elastic.mwf(obuf(c))
+
 // eventloop.open (C04, C18): the handler decides admission; what it returns is the first thing handed to the socket
 // of the new connection, and a refused client is closed without any reply.
 //@ func conn.open
 //@   flags trusted
 //@   modifies c.wcount, c.wlog, elastic.Buffer.pending, elastic.RingBuffer.rb, ring.Buffer.buf, ring.Buffer.size, ring.Buffer.r, ring.Buffer.w, ring.Buffer.isEmpty
+//@   modifies linkedlist.Buffer.head, linkedlist.Buffer.tail, linkedlist.Buffer.size, linkedlist.Buffer.bytes, linkedlist.node.next, linkedlist.node.buf
 //@   ensures result == nil ==> c.wcount == old(c.wcount) + 1 && c.wlog[old(c.wcount)] == buf
 //@   ensures result != nil ==> c.wcount == old(c.wcount)
 //@   ensures forall k int :: k < old(c.wcount) ==> c.wlog[k] == old(c.wlog[k])
+//@   ensures old(elastic.mwf(c.outboundBuffer)) ==> elastic.mwf(c.outboundBuffer)
 
 //@ func eventloop.addCConn
 //@   flags trusted pure
@@ -135,7 +189,7 @@ package core
 
 //@ func eventloop.open
 //@   props C04 C18
-//@   requires c != nil && c.loop != nil && el.eventHandler != nil && el.poller != nil && c.outboundBuffer != nil && c.outboundBuffer.pending == 0
+//@   requires c != nil && c.loop != nil && el.eventHandler != nil && el.poller != nil && c.outboundBuffer != nil && elastic.mwf(c.outboundBuffer) && elastic.mempty(c.outboundBuffer)
 //@   assert[first@C04] at call conn.open#0 :: c.wcount == old(c.wcount) && out != nil
 //@   ensures[refuse@C18] (old(c.connType) == ConnClient && authip.IpMap.enable && !authip.admitted(server.peerhost(c))) ==> (!c.opened && c.wcount == old(c.wcount))
 //@   ensures[admitted@C18] (old(c.connType) == ConnClient && !(authip.IpMap.enable && !authip.admitted(server.peerhost(c)))) ==> (c.opened && result == nil && c.wcount == old(c.wcount))
